@@ -21,6 +21,24 @@ type blockFam struct {
 	SizeSlack int // MaxBlockSize = empty block + size(a4) + size(a0) + SizeSlack
 	maxSize  uint32
 	sc       *chainx.Scenario
+	fam      chainx.Family
+	batches  []chainx.Batch // the store content after the setup block
+}
+
+// newNode opens a replica on a private copy of the family's store (the state
+// after the setup block) - the same as replaying the blocks, but cheaper.
+func (f *blockFam) newNode() (*chainx.Node, error) {
+	o := f.fam.Opts()
+	o.Store = chainx.NewRecStore(chainx.ApplyBatches(f.batches, len(f.batches)))
+	n, err := chainx.New(o)
+	if err != nil {
+		return nil, err
+	}
+	if n.BC.BlockHeight() != 4 {
+		n.Close()
+		return nil, fmt.Errorf("replica opened at height %d", n.BC.BlockHeight())
+	}
+	return n, nil
 }
 
 const maxBlockSysFee = 25 * gas
@@ -149,9 +167,9 @@ func (e *env) blockFams() []*blockFam {
 		}
 	}
 	for _, f := range out {
-		f.Name = fmt.Sprintf("maxtx%d-size%+d", f.MaxTx, f.SizeSlack)
+		f.Name = fmt.Sprintf("plain-maxtx%d-size%+d", f.MaxTx, f.SizeSlack)
 		if f.SRIH {
-			f.Name += "-srih"
+			f.Name = fmt.Sprintf("srih-maxtx%d-size%+d", f.MaxTx, f.SizeSlack)
 		}
 	}
 	return out
@@ -224,6 +242,7 @@ func (e *env) prepareFam(f *blockFam, al *alpha) error {
 		c.MaxTransactionsPerBlock = f.MaxTx
 		c.MaxBlockSize = f.maxSize
 		c.MaxBlockSystemFee = maxBlockSysFee
+		c.MemPoolSize = 64
 	}}
 	sc, err := chainx.NewScenario(fam, 0, []chainx.Tpl{setupTpl()})
 	if err == nil {
@@ -233,6 +252,18 @@ func (e *env) prepareFam(f *blockFam, al *alpha) error {
 		return err
 	}
 	f.sc = sc
+	f.fam = fam
+	n, _, err := sc.RefNode([]int{0})
+	if err != nil {
+		return err
+	}
+	if err := n.Persist(); err != nil {
+		n.Close()
+		return err
+	}
+	rec := n.Store.(*chainx.RecStore)
+	n.Close()
+	f.batches = rec.Batches()
 	return nil
 }
 
@@ -264,7 +295,7 @@ func (e *env) runBlocks() map[string]any {
 	maxK := 4
 	orders := []string{"asc", "desc"}
 	if e.thor {
-		maxK = 6
+		maxK = 5
 		orders = []string{"asc", "desc", "rotate", "inside-out"}
 	}
 	subs := subsets(len(al.Names), maxK)
@@ -277,6 +308,10 @@ func (e *env) runBlocks() map[string]any {
 	var jobs []job
 	for _, f := range fams {
 		for _, s := range subs {
+			// quick tier: subsets of 4 only in the two families where all three limits bind
+			if !e.thor && len(s) > 3 && !(f.MaxTx >= 2 && f.SizeSlack == 0 && !f.SRIH) {
+				continue
+			}
 			for _, o := range orders {
 				if len(s) < 2 && o != "asc" {
 					continue
@@ -315,16 +350,16 @@ func (e *env) blockCase(f *blockFam, al *alpha, sub []int, order string, extra [
 	if extra != nil {
 		rec.Tx = hex.EncodeToString(extra)
 	}
+	var names []string
+	for _, i := range ord {
+		names = append(names, al.Names[i])
+	}
+	rec.Shape = strings.Join(names, ",")
 	key := func(what string) string {
-		var names []string
-		for _, i := range ord {
-			names = append(names, al.Names[i][:2])
-		}
-		k := fmt.Sprintf("proposable:%s:%s:%s", what, f.Name, strings.Join(names, ","))
 		if extra != nil {
-			k = fmt.Sprintf("proposable:nonminimal-varint-tx-pooled:%s:%s:%s", what, f.Name, strings.Join(names, ","))
+			return fmt.Sprintf("proposable:nonminimal-varint-tx-pooled:%s:%s", what, f.Name)
 		}
-		return k
+		return fmt.Sprintf("proposable:%s:%s", what, f.Name)
 	}
 	fail := func(what, note string) {
 		r := *rec
@@ -337,7 +372,7 @@ func (e *env) blockCase(f *blockFam, al *alpha, sub []int, order string, extra [
 		}
 	}()
 	e.count.block.Inc()
-	P, _, err := f.sc.RefNode([]int{0})
+	P, err := f.newNode()
 	if err != nil {
 		fail("harness-replica", err.Error())
 		return
@@ -347,14 +382,14 @@ func (e *env) blockCase(f *blockFam, al *alpha, sub []int, order string, extra [
 	if extra != nil {
 		tx, err := transaction.NewTransactionFromBytes(extra)
 		if err != nil {
-			e.r.Outcome("proposable:respelled-tx-rejected-by-decoder")
+			e.out("proposable", "respelled-tx-rejected-by-decoder")
 			return
 		}
 		if err := P.BC.PoolTx(tx); err != nil {
-			e.r.Outcome("proposable:respelled-tx-rejected-by-pool:" + errClass(err))
+			e.out("proposable", "respelled-tx-rejected-by-pool:"+errClass(err))
 			return
 		}
-		e.r.Outcome("proposable:respelled-tx-pooled")
+		e.out("proposable", "respelled-tx-pooled")
 		pooled++
 	}
 	for _, i := range ord {
@@ -364,7 +399,7 @@ func (e *env) blockCase(f *blockFam, al *alpha, sub []int, order string, extra [
 			return
 		}
 		err = P.BC.PoolTx(tx)
-		e.r.Outcome("proposable:pool:" + al.Names[i][:2] + "->" + errClass(err))
+		e.out("proposable", "pool:"+al.Names[i]+"->"+errClass(err))
 		if err == nil {
 			pooled++
 		}
@@ -375,7 +410,8 @@ func (e *env) blockCase(f *blockFam, al *alpha, sub []int, order string, extra [
 	if len(verified) > 0 {
 		sel = P.BC.ApplyPolicyToTxSet(verified)
 	}
-	e.r.Outcome(fmt.Sprintf("proposable:%s:pool=%d->block=%d", f.Name, len(verified), len(sel)))
+	e.out("proposable", fmt.Sprintf("%s:pool=%d->block=%d", f.Name, len(verified), len(sel)))
+	e.r.Outcome(fmt.Sprintf("proposable:pool=%d->block=%d", len(verified), len(sel)))
 	e.count.states.Add(fmt.Sprintf("proposable/%s/%v", f.Name, txids(verified)))
 	// the selection is a prefix of the pool order
 	for i := range sel {
@@ -410,7 +446,7 @@ func (e *env) blockCase(f *blockFam, al *alpha, sub []int, order string, extra [
 		fail("exceeds-MaxBlockSize", fmt.Sprintf("serialised block is %d bytes, MaxBlockSize %d (%d transactions)", len(wire), f.maxSize, len(sel)))
 	}
 	// a replica that never saw the pool
-	R, _, err := f.sc.RefNode([]int{0})
+	R, err := f.newNode()
 	if err != nil {
 		fail("harness-replica", err.Error())
 		return
